@@ -695,7 +695,7 @@ func (m *Machine) boundedIndex(fr *Frame, idx *Term, limit int, what string) int
 	if !m.Branch(in) {
 		m.runtimePanic(fr, "slice bounds out of range", "slice bounds out of range (symbolic)")
 	}
-	return int(m.Concretize(idx, what))
+	return int(m.ConcretizeLen(idx, what))
 }
 
 func (m *Machine) checkIndex(fr *Frame, idx *Term, n int) (int, bool) {
